@@ -30,7 +30,7 @@ import re
 import struct
 import sys
 
-from irlib import AnalysisBroken, V, demangle, tyname
+from irlib import AnalysisBroken, demangle, tyname
 
 sys.setrecursionlimit(max(sys.getrecursionlimit(), 40000))
 
@@ -683,9 +683,6 @@ class Machine:
         if c is None:
             raise AnalysisBroken('function %s is not defined in the unit' % name)
         return self.run(c, list(args))
-
-    def where(self):
-        return self._where
 
     def run(self, c, args):
         self.depth += 1
